@@ -552,7 +552,7 @@ def impl_procs(case):
         for k, v in enumerate(variants):
             env = dict(os.environ)
             env["PYTHONHASHSEED"] = str((case["pseed"] + 7919 * k) % 4294967295 or 1)
-            env.pop("ANDROGUARD_ANDROGUARD_VERIF", None)
+            env.pop("ANDROGUARD_VERIF", None)
             out = os.path.join(tmp, "out%d.json" % k)
             procs.append((v, out, subprocess.Popen([sys.executable, "-m", "tools.vlib.c22_child", os.path.join(repo, case["file"]), kf, out, v, str(case["pseed"] + k)],
                                                    env=env, cwd=VERIF_DIR, stdout=subprocess.DEVNULL, stderr=subprocess.PIPE)))
